@@ -25,7 +25,7 @@ SCAF = C.CFUNCTYPE(C.c_int, C.c_void_p, C.c_uint, C.c_uint, C.c_void_p)
 FINAL = C.CFUNCTYPE(C.c_uint, C.c_void_p, C.POINTER(C.c_uint), C.c_void_p, C.c_void_p)
 _lib.run_parse.restype = C.c_int
 _lib.run_parse.argtypes = [C.c_void_p, C.c_void_p, C.c_uint, C.POINTER(C.c_uint), C.c_uint, C.c_void_p, C.c_void_p, FINAL, SCAF, C.c_void_p, C.c_void_p,
-                           C.c_uint, C.c_float, C.c_float, C.c_int, C.c_uint, C.c_uint, C.c_uint]
+                           C.c_uint, C.c_float, C.c_float, C.c_int, C.c_uint, C.c_uint, C.c_uint, C.POINTER(C.c_float), C.POINTER(C.c_uint)]
 _lib.trace_enable.argtypes = [C.c_int]
 _lib.trace_len.restype = C.c_uint
 _lib.trace_get.argtypes = [C.c_uint, C.POINTER(C.c_int), C.POINTER(C.c_uint), C.POINTER(C.c_ulonglong), C.POINTER(C.c_ulonglong), C.POINTER(C.c_float), C.POINTER(C.c_float),
@@ -127,8 +127,13 @@ def parse_sentence(tag, dep, length, roots, bcb, ucb, finalizer, scaffold, fargs
         except BaseException as e:
             err.append(e); return 0
     rs = (C.c_uint * len(roots))(*sorted(roots))
+    fout, uout = (C.c_float * 2)(), (C.c_uint * 5)()
     st = _lib.run_parse(_buf(tag), _buf(dep), _u32(length), rs, len(roots), None, None, FINAL(fin), SCAF(sc), None, cache.p,
-                        _u32(cfg.num_tags), cfg.unary_penalty, cfg.beta, int(bool(cfg.use_beta)), _u32(cfg.pruning_size), _u32(cfg.nbest), _u32(cfg.max_step))
+                        _u32(cfg.num_tags), cfg.unary_penalty, cfg.beta, int(bool(cfg.use_beta)), _u32(cfg.pruning_size), _u32(cfg.nbest), _u32(cfg.max_step),
+                        fout, uout)
+    # the config struct is shared by the sentences of one call (parsing.pyx passes &c_config): keep what the C++ left in it
+    cfg.unary_penalty, cfg.beta = fout[0], fout[1]
+    cfg.num_tags, cfg.use_beta, cfg.pruning_size, cfg.nbest, cfg.max_step = uout[0], bool(uout[1]), uout[2], uout[3], uout[4]
     if err:
         raise err[0]
     if st < 0:
